@@ -43,9 +43,11 @@ def check_conv(conf, G, name, kw, nodes, times, P):
         res.append(('conversion', sig, detail))
 
     G.graph['meta'] = {'k': [1, 2], 'name': 'g'}
+    G.graph['edge_removal'] = 'no'          # attribute names that are also constructor parameters
+    G.graph['data'] = 'survey'
     before = observe.snapshot(G, conf, times)
     try:
-        H = getattr(G, kw[0])(**kw[1])
+        H = getattr(G, kw[0])(*kw[1]) if isinstance(kw[1], tuple) else getattr(G, kw[0])(**kw[1])
     except Exception as ex:
         bad('raises', {'exc': type(ex).__name__}, exc=type(ex).__name__)
         return res
@@ -59,7 +61,7 @@ def check_conv(conf, G, name, kw, nodes, times, P):
     hnodes = list(nodes) + [n for n in H.nodes() if n not in nodes]
     PH = observe.presence(H, hnodes, htimes)
     if directed_src:
-        if kw[1].get('reciprocal'):
+        if (kw[1] == (True,)) or (isinstance(kw[1], dict) and kw[1].get('reciprocal')):
             want = set((u, v, t) for (u, v, t) in P if (v, u, t) in P)
         else:
             want = set(P) | set((v, u, t) for (u, v, t) in P)
@@ -130,7 +132,8 @@ def state_fn(conf, hist, G, M):
     muts = 0
     if conf['cls'] == 'DynDiGraph':
         convs = [('to_undirected', ('to_undirected', {})), ('to_undirected(reciprocal=False)', ('to_undirected', {'reciprocal': False})),
-                 ('to_undirected(reciprocal=True)', ('to_undirected', {'reciprocal': True}))]
+                 ('to_undirected(reciprocal=True)', ('to_undirected', {'reciprocal': True})),
+                 ('to_undirected(True)', ('to_undirected', (True,)))]
     else:
         convs = [('to_directed', ('to_directed', {}))]
     for name, kw in convs:
